@@ -120,6 +120,8 @@ def seed_children(w):
     x.reference = d1
     for o in (n, x):
         w.add(o)
+    # views of the instances' pins taken before the events (they follow re-pointing and un-referencing)
+    w.views += [(u0, "pins", u0.pins), (x, "pins", x.pins)]
 
 
 def seed_moves(w):
@@ -136,8 +138,9 @@ def seed_moves(w):
     ac.wires[0].connect_pin(ap.pins[0])
     ac.wires[0].connect_pin(u.pins[lp.pins[0]])
     b = lib.create_definition(name="b")
-    b.create_child(name="ia", reference=a)
+    ia = b.create_child(name="ia", reference=a)
     w.add(n)
+    w.views += [(u, "pins", u.pins), (ia, "pins", ia.pins)]
 
 
 def seed_names(kind):
